@@ -1068,6 +1068,68 @@ func c18Pipelined(c *Ctx, srv *server, cases []restCase) {
 	}
 }
 
+// c18HeadThenBody: a client that writes a complete request and, in the same segment, the head of a second POST, then
+// reads the first answer, and only then sends the second request's body (the order is the client's, nothing is
+// timed). Both requests are well-formed and each must get the answer for its own fields: a server that keeps the
+// first answer back until it has read the second body leaves this client waiting until a read timeout ends the
+// second request.
+func c18HeadThenBody(c *Ctx, srv *server, cases []restCase) {
+	r := c.R
+	var posts []restCase
+	for _, k := range cases {
+		if k.Method == "POST" && k.F != nil && k.RawBody == "" && k.RawPath == "" && k.Query == "" {
+			if _, hasTS := k.F["timestamp"]; strings.HasPrefix(k.EP, "totp/") && !hasTS {
+				continue
+			}
+			posts = append(posts, k)
+		}
+	}
+	for i := 0; i+1 < len(posts); i += 2 {
+		k1, k2 := posts[i], posts[i+1]
+		b1, b2 := jsonBody(k1.F), jsonBody(k2.F)
+		conn, err := net.DialTimeout("tcp", srv.addr, 10*time.Second)
+		if err != nil {
+			continue
+		}
+		conn.SetDeadline(time.Now().Add(60 * time.Second)) // watchdog only
+		head := func(k restCase, n int) string {
+			return fmt.Sprintf("POST /%s HTTP/1.1\r\nHost: %s\r\nContent-Type: application/json\r\nContent-Length: %d\r\n\r\n", k.EP, srv.addr, n)
+		}
+		conn.Write([]byte(head(k1, len(b1)) + string(b1) + head(k2, len(b2))))
+		br := bufio.NewReader(conn)
+		read := func() *httpResult {
+			resp, err := http.ReadResponse(br, &http.Request{Method: "POST"})
+			if err != nil {
+				return nil
+			}
+			b, rerr := io.ReadAll(resp.Body)
+			resp.Body.Close()
+			if rerr != nil {
+				return nil
+			}
+			return &httpResult{Status: resp.StatusCode, Header: resp.Header, Body: b}
+		}
+		a1 := read()
+		conn.Write(b2) // only now
+		a2 := read()
+		conn.Close()
+		r.Count("head_then_body_pairs", 1)
+		for j, pr := range []struct {
+			k restCase
+			a *httpResult
+		}{{k1, a1}, {k2, a2}} {
+			k := pr.k
+			k.Note += fmt.Sprintf(" [request %d of a pair: the second request's head travels with the first request, its body follows after the first answer has been read]", j+1)
+			if pr.a == nil {
+				r.Eval(1)
+				r.Violate(r.Prop+"|/"+k.EP+"|no-response|head-then-body", "/"+k.EP+": a well-formed request gets no answer on a connection on which the client sends the next request's body only after reading the previous answer", "rest", k, "200 + JSON", "no response (connection closed)")
+				continue
+			}
+			judgeRESTWith(c, srv, k, pr.a, 0, 0)
+		}
+	}
+}
+
 func runC18On(c *Ctx, binEnv string, n int, conc []int) {
 	var env []string
 	if strings.Contains(binEnv, "RACE") {
@@ -1101,6 +1163,7 @@ func runC18On(c *Ctx, binEnv string, n int, conc []int) {
 	c18CrossEndpoint(c, srv, n/20)
 	c18Pipelined(c, srv, c18Cases(c, n/8+40))
 	c18DistinctSecrets(c, srv, n)
+	c18HeadThenBody(c, srv, c18Cases(c, 60))
 	if !srv.alive() {
 		c.R.Violate("C18|server|died|", "the server process exited during the well-formed workload", "none", nil, "alive", "exited; see server log")
 	}
@@ -1109,7 +1172,7 @@ func runC18On(c *Ctx, binEnv string, n int, conc []int) {
 func init() {
 	register(&Prop{
 		ID: "C18",
-		Rule: "the real server binary (built from the working tree) runs on a loopback port; well-formed requests to all ten endpoints are generated over every field present/absent, digits/hash spellings incl. unknown ones, raw and structured suites, secrets with surrounding white space, counters/timestamps/periods/skews of the C01-C06 domains, from 1..32 client goroutines over reused and fresh connections; each response is compared with the in-process library result for exactly the request's parameters AND the independent reference model; generated codes are fed back to the matching validate endpoint; 2..16 different requests are pipelined on one TCP connection (bytes cut into segments at seeded places) and the i-th answer is judged as the answer to the i-th request; thousands of requests with secrets never seen before in one server process, with early secrets coming back after 10..50000 others in fresh spellings; identical requests without a timestamp repeated as the clock moves on (periods 1 and 2 s), each verdict bracketed by the instants of its exchange; " +
+		Rule: "the real server binary (built from the working tree) runs on a loopback port; well-formed requests to all ten endpoints are generated over every field present/absent, digits/hash spellings incl. unknown ones, raw and structured suites, secrets with surrounding white space, counters/timestamps/periods/skews of the C01-C06 domains, from 1..32 client goroutines over reused and fresh connections; each response is compared with the in-process library result for exactly the request's parameters AND the independent reference model; generated codes are fed back to the matching validate endpoint; 2..16 different requests are pipelined on one TCP connection (bytes cut into segments at seeded places) and the i-th answer is judged as the answer to the i-th request; pairs whose second head travels with the first request and whose second body follows the first answer; thousands of requests with secrets never seen before in one server process, with early secrets coming back after 10..50000 others in fresh spellings; identical requests without a timestamp repeated as the clock moves on (periods 1 and 2 s), each verdict bracketed by the instants of its exchange; " +
 			"distinct_nontrivial counts distinct (endpoint, body, query) requests judged",
 		Run: func(c *Ctx) {
 			nowDone := make(chan struct{})
